@@ -244,6 +244,7 @@ var whereClauses = []string{
 	" where N > 0", " where N == 7", " where Name sameas typed", " where Name sameas x", " where B is true", " where F f> 1",
 	" where (N > 0 and B is true)", " where (N > 100 or Name startswith t)", " where not N > 3", " where Tags contains a", " where M.k sameas v",
 	" where x exists", " where Name matches ^t", " where Name in a,b,typed",
+	" where not N > 3 and B is true", " where not N > 3 or B is true", " where not N > 3",
 }
 
 var queryTails = []string{"", "", "", " limit 1", " limit 2 offset 1", " orderby N", " orderby Name limit 3", " offset 1"}
